@@ -55,12 +55,14 @@ Proof.
     + rewrite IH. split; intros H; tauto.
 Qed.
 
-Lemma sections_insert s d y : In y (sections (insert_section s d)) <-> y = s \/ In y (sections d).
+Lemma In_ins_sec s secs y : In y (ins_sec s secs) <-> y = s \/ In y secs.
 Proof.
-  unfold insert_section. destruct (smem s (sections d)) eqn:E.
+  unfold ins_sec. destruct (smem s secs) eqn:E.
   - apply smem_In in E. split; [auto|]. intros [H|H]; [subst; exact E|exact H].
-  - fld. rewrite In_insert_at. tauto.
+  - rewrite In_insert_at. tauto.
 Qed.
+Lemma sections_insert s d y : In y (sections (insert_section s d)) <-> y = s \/ In y (sections d).
+Proof. unfold insert_section. fld. apply In_ins_sec. Qed.
 Lemma insert_section_In s d : In s (sections (insert_section s d)).
 Proof. apply sections_insert. left. reflexivity. Qed.
 
@@ -85,17 +87,29 @@ Proof. reflexivity. Qed.
 Lemma present_sections_sections v d : present_sections (set_sections v d) = present_sections d.
 Proof. unfold present_sections. apply filter_ext. intro k. apply data_present_sections. Qed.
 Lemma present_insert s d : present_sections (insert_section s d) = present_sections d.
-Proof. unfold insert_section. destruct (smem s (sections d)); [reflexivity|apply present_sections_sections]. Qed.
+Proof. unfold insert_section. apply present_sections_sections. Qed.
 
 Lemma fold_delete_sections ks d : sections (fold_left (fun d k => delete_section k d) ks d) = fold_left rm ks (sections d).
 Proof. revert d. induction ks as [|k ks IH]; intro d; [reflexivity|]. cbn [fold_left]. rewrite IH. reflexivity. Qed.
 
+(** the section list after update_sections, in closed form *)
+Lemma filter_In_str (f : str -> bool) l k : In k (filter f l) <-> In k l /\ f k = true.
+Proof. apply filter_In. Qed.
+Lemma sections_update_gen (ps : list str) (d1 : data) :
+  sections (fold_left (fun d k => delete_section k d) (filter (fun k => negb (smem k ps)) (sections d1)) d1)
+  = filter (fun x => smem x ps) (sections d1).
+Proof.
+  rewrite fold_delete_sections. rewrite (rm_fold_filter (fun k => negb (smem k ps))).
+  apply filter_ext. intro a. apply negb_involutive.
+Qed.
+Lemma sections_update d : written_sections d = filter (fun x => smem x (present_sections d)) (sections (with_missing d)).
+Proof. unfold written_sections, update_sections, extra_sections. apply sections_update_gen. Qed.
+
 (** every section write() emits has data behind it *)
 Theorem written_sections_present d k : In k (written_sections d) -> In k all_sections /\ data_present d k = true.
 Proof.
-  unfold written_sections, update_sections. rewrite fold_delete_sections. unfold extra_sections.
-  rewrite rm_fold_filter. intro H. apply filter_In in H as [_ H].
-  rewrite negb_involutive in H. apply smem_In in H. unfold present_sections in H. apply filter_In in H. exact H.
+  rewrite sections_update. intro H. apply filter_In_str in H. destruct H as [_ H]. apply smem_In in H.
+  revert H. unfold present_sections. apply filter_In_str.
 Qed.
 
 Lemma fold_insert_In ks d k : In k ks \/ In k (sections d) -> In k (sections (fold_left (fun d k => insert_section k d) ks d)).
@@ -107,10 +121,10 @@ Qed.
 (** ... and every keyword with data is written *)
 Theorem present_is_written d k : In k all_sections -> data_present d k = true -> In k (written_sections d).
 Proof.
-  intros A P. unfold written_sections, update_sections. rewrite fold_delete_sections. unfold extra_sections. rewrite rm_fold_filter.
-  assert (PS : In k (present_sections d)) by (apply filter_In; split; assumption).
-  apply filter_In. split.
+  intros A P. rewrite sections_update.
+  assert (PS : In k (present_sections d)) by (unfold present_sections; apply filter_In_str; split; assumption).
+  apply filter_In_str. split.
   - unfold with_missing. apply fold_insert_In. destruct (smem k (sections d)) eqn:E; [right; apply smem_In; exact E|left].
-    unfold missing_sections. apply filter_In. split; [exact PS|rewrite E; reflexivity].
-  - rewrite negb_involutive. apply smem_In. exact PS.
+    unfold missing_sections. apply filter_In_str. split; [exact PS|rewrite E; reflexivity].
+  - apply smem_In. exact PS.
 Qed.
